@@ -114,7 +114,7 @@ type target struct {
 }
 
 var labelOrdinal = regexp.MustCompile(`#post\(\d+\)\[`)
-var invOrdinal = regexp.MustCompile(`#(inv-entry|inv-step)\(([RL]\d+)\.\d+\)\[`)
+var invOrdinal = regexp.MustCompile(`#(inv-entry|inv-step)\(([RL]\d+)\.s?\d+\)\[`)
 
 func cmdCheck(args []string) int {
 	fs := flag.NewFlagSet("check", flag.ExitOnError)
